@@ -87,21 +87,25 @@ func runC19(r *rt.Run, tier string) {
 			binSrc[b] = i
 		}
 	}
-	edges := map[[2]int]bool{} // from -> to (from must be built before to)
-	for i, s := range srcs {
-		for _, d := range []mDep{s.Doc.BD, s.Doc.BDA, s.Doc.BDI} {
-			for _, rel := range d {
-				if name, ok := firstApplicable(rel, buildArch.Text); ok {
-					if from, ok := binSrc[name]; ok {
-						edges[[2]int{from, i}] = true
-						if len(rel) > 1 {
-							r.Probe("edge-through-alternative")
+	edgesFor := func(arch string, probe bool) map[[2]int]bool {
+		edges := map[[2]int]bool{} // from -> to (from must be built before to)
+		for i, s := range srcs {
+			for _, d := range []mDep{s.Doc.BD, s.Doc.BDA, s.Doc.BDI} {
+				for _, rel := range d {
+					if name, ok := firstApplicable(rel, arch); ok {
+						if from, ok := binSrc[name]; ok {
+							edges[[2]int{from, i}] = true
+							if probe && len(rel) > 1 {
+								r.Probe("edge-through-alternative")
+							}
 						}
 					}
 				}
 			}
 		}
+		return edges
 	}
+	edges := edgesFor(buildArch.Text, true)
 	cyclic := hasCycle(n, edges)
 	if cyclic {
 		r.Probe("cyclic-graph")
@@ -205,6 +209,63 @@ func runC19(r *rt.Run, tier string) {
 			}
 		}
 	}
+	// the same parsed objects ordered for ANOTHER architecture, then for the
+	// first one again: an ordering must not leave anything behind in its input
+	other := archStock[(archIndex(buildArch.Text)+1+t.Draw(2, "c19.arch2"))%3]
+	arch2, _ := dependency.ParseArch(other.Text)
+	var out2 []control.DSC
+	var err2 error
+	task2 := r.Solo("order-other-arch", func() { out2, err2 = control.OrderDSCForBuild(dscs, *arch2) })
+	if taskTrouble(r, "C19", "OrderDSCForBuild/other-arch", task2) {
+		return
+	}
+	c19Check(r, "order/second-architecture-on-same-objects", srcs, edgesFor(other.Text, false), out2, err2, other.Text)
+	var out3 []control.DSC
+	var err3 error
+	task3 := r.Solo("order-first-arch-again", func() { out3, err3 = control.OrderDSCForBuild(dscs, *arch) })
+	if taskTrouble(r, "C19", "OrderDSCForBuild/again", task3) {
+		return
+	}
+	c19Check(r, "order/first-architecture-again", srcs, edges, out3, err3, buildArch.Text)
+	r.Probe("ordered-for-two-architectures")
+}
+
+func archIndex(text string) int {
+	for i, a := range archStock {
+		if a.Text == text {
+			return i
+		}
+	}
+	return 0
+}
+
+// c19Check compares one OrderDSCForBuild outcome with the model graph.
+func c19Check(r *rt.Run, key string, srcs []*c19Src, edges map[[2]int]bool, out []control.DSC, err error, arch string) {
+	cyclic := hasCycle(len(srcs), edges)
+	if cyclic {
+		if err == nil {
+			r.Violate("C19/cycle-not-reported", key, "[%s] the graph has a cycle (%s) but an order was returned", arch, edgeList(srcs, edges))
+		}
+		return
+	}
+	if err != nil {
+		r.Violate("C19/error-on-acyclic-graph", key, "[%s] acyclic graph (%s) but OrderDSCForBuild failed: %v", arch, edgeList(srcs, edges), err)
+		return
+	}
+	pos := map[string]int{}
+	for i, d := range out {
+		pos[d.Source] = i
+	}
+	if len(pos) != len(srcs) || len(out) != len(srcs) {
+		r.Violate("C19/not-a-permutation", key, "[%s] %d sources in, %d out", arch, len(srcs), len(out))
+		return
+	}
+	for e := range edges {
+		if pos[srcs[e[0]].Name] > pos[srcs[e[1]].Name] {
+			r.Violate("C19/dependency-built-too-late", key, "[%s] %s build-depends on a binary of %s but comes before it; edges: %s", arch, srcs[e[1]].Name, srcs[e[0]].Name, edgeList(srcs, edges))
+			return
+		}
+	}
 }
 
 func edgeList(srcs []*c19Src, edges map[[2]int]bool) string {
@@ -257,5 +318,5 @@ func init() {
 		},
 		Assumptions: []string{"claimed weakly: the function under test is pure; simulation owns only the arrival order, the file reads and the map-order seam. The deciding oracle is a graph model over generated inputs", "architecture restrictions use concrete architectures only (wildcard matching belongs to the not-applicable property C06)", "every binary is built by exactly one of the given sources"},
 	})
-	propProbes["C19"] = []string{"cyclic-graph", "acyclic-graph", "edge-through-alternative", "multi-binary-source-has-dependents"}
+	propProbes["C19"] = []string{"ordered-for-two-architectures", "cyclic-graph", "acyclic-graph", "edge-through-alternative", "multi-binary-source-has-dependents"}
 }
